@@ -396,6 +396,87 @@ func runC10(c *h.Ctx) {
 			cs.Sample(map[string]interface{}{"phase": "edits", "proto": pc.Text, "ops": log, "final": fmt.Sprint(m)})
 		}
 	})
+
+	// ---- SetMany at the root: replacements of present fields and insertions of absent ones in one call
+	c.Run("setmany-root", c.N(2500, 80000), func(cs *h.Case) {
+		sc := gen.GenPSchema(cs.R, gen.PCfg{MaxDepth: 1, MaxFields: 8, Enums: true, BigNums: cs.R.Chance(40), NoMaps: cs.R.Bool()})
+		pc, err := PCompile(sc)
+		if err != nil {
+			cs.Cover("oracle_schema_rejected")
+			return
+		}
+		cs.Info("proto", pc.Text)
+		svc, err := dproto.NewDescritorFromContent(context.Background(), "verif.proto", pc.Text, nil)
+		if err != nil {
+			cs.Viol("pedit:parse", "err", err)
+			return
+		}
+		desc := svc.LookupMethodByName("M").Input()
+		m := PGenMsg(cs.R, pc.Root, PValCfg{MaxElems: 4, MaxDepth: 2}, 0)
+		b := PMarshal(m)
+		cs.Info("initial", fmt.Sprint(m))
+		cs.Info("initial-bytes", hexs(b))
+		// singular scalar fields of the root, in random order
+		var fds []protoreflect.FieldDescriptor
+		for i := 0; i < pc.Root.Fields().Len(); i++ {
+			fd := pc.Root.Fields().Get(i)
+			if !fd.IsList() && !fd.IsMap() && fd.Kind() != protoreflect.MessageKind {
+				fds = append(fds, fd)
+			}
+		}
+		if len(fds) < 2 {
+			cs.Cover("setmany_too_few_scalar_fields")
+			return
+		}
+		for i := len(fds) - 1; i > 0; i-- {
+			k := cs.R.Intn(i + 1)
+			fds[i], fds[k] = fds[k], fds[i]
+		}
+		n := 2 + cs.R.Intn(min(3, len(fds)-1))
+		var pns []pg.PathNode
+		var log []string
+		nPresent, nAbsent := 0, 0
+		for _, fd := range fds[:n] {
+			nv := pScalar(cs.R, fd, PValCfg{})
+			if m.Has(fd) {
+				nPresent++
+			} else {
+				nAbsent++
+			}
+			log = append(log, fmt.Sprintf("%d(%s,present=%v):=%v", fd.Number(), fd.Kind(), m.Has(fd), nv.Interface()))
+			m.Set(fd, nv)
+			pns = append(pns, pg.PathNode{Path: pg.NewPathFieldId(dproto.FieldNumber(fd.Number())), Node: pScalarNode(fd, nv)})
+		}
+		cs.Info("setmany", log)
+		root := pg.NewRootValue(desc, append([]byte{}, b...))
+		cls := "replace-only"
+		switch {
+		case nPresent > 0 && nAbsent > 0:
+			cls = "mixed"
+		case nAbsent > 0:
+			cls = "insert-only"
+		}
+		if err := root.SetMany(pns, &pg.Options{}, &root, []int{}); err != nil {
+			cs.Viol("pedit:setmany:"+cls+":error", "err", err)
+			return
+		}
+		out := root.Raw()
+		m2 := dynamicpb.NewMessage(pc.Root)
+		if uerr := PUnmarshal(out, m2); uerr != nil {
+			cs.Viol("pedit:setmany:"+cls+":rejected-by-reference", "err", uerr, "out", out)
+			return
+		}
+		if !proto.Equal(m, m2) {
+			cs.Viol("pedit:setmany:"+cls+":different-message", "got", fmt.Sprint(m2), "want", fmt.Sprint(m), "out", out)
+			return
+		}
+		if dup := pDupSingular(pc.Root, out, ""); dup != "" {
+			cs.Viol("pedit:setmany:"+cls+":singular-field-duplicated", "where", dup, "out", out)
+			return
+		}
+		cs.Cover("setmany_" + cls + "_ok")
+		cs.Distinct(fmt.Sprintf("sm-%s-%d-%s", cls, n, c20Shape(m)))
+	})
 }
 
 // pDupSingular walks the wire format and reports the first singular (non-repeated, non-map) field that occurs
